@@ -30,8 +30,9 @@ MANIFEST = {
 
 
 @st.composite
-def cases(draw):
-    env = draw(gen.envs(max_params=1))
+def cases(draw, tier="quick"):
+    big = tier == "thorough"
+    env = draw(gen.envs(max_params=1, max_vec=10 if big else 6))
     polyish = draw(st.integers(0, 9)) < 7
     if polyish:
         cfg = gen.Cfg(funcs=[], general_pow=False, norms=False, params=draw(st.integers(0, 5)) == 0,
@@ -40,7 +41,7 @@ def cases(draw):
     else:
         cfg = gen.Cfg()
     g = gen.G(draw, env, cfg)
-    recipe = g.S(draw(st.integers(1, 4)))
+    recipe = g.S(draw(st.integers(1, 5 if big else 4)))
     allv = all_var_names(env)
     lines = []
     for _ in range(3):
@@ -55,7 +56,7 @@ def cases(draw):
 
 
 def strategy(tier):
-    return cases()
+    return cases(tier)
 
 
 def sample_repr(case):
